@@ -247,5 +247,5 @@ def parts(tier):
         Part("group", run_group, strategy=lambda t: R.group_case(t), examples=(800, 40000), shards=(2, 16)),
         Part("sort", run_sort, strategy=lambda t: c14.sort_case(t), examples=(500, 20000), shards=(1, 16)),
         Part("csv", run_csv, strategy=lambda t: c19.csv_case(t), examples=(800, 30000), shards=(1, 16)),
-        Part("history", run_history, strategy=lambda t: W.program(max_steps=mx), examples=(1500, 100000), shards=(6, 16)),
+        Part("history", run_history, strategy=lambda t: W.program(max_steps=mx), examples=(1500, 32000), shards=(6, 16)),
     ]
